@@ -33,9 +33,10 @@
    The table of document j in a chain is its full-mode root table when j = a, else its
    definitions-only root table.
 
-   Outside also: what DefTree.v already leaves out for the typing of operands (a name after a dot
-   unless the left operand is the terminal `self` / the header's own name and nothing else in the
-   document is called so); documents with more than one class / module node, or one below the
+   Outside also: the typing of operands before a dot beyond: the terminal `self` / the header's own name
+   (DefTree.own_entity), the name of another indexed class / module, a variable, parameter or field
+   (own or inherited) whose declared type is native, an indexed class, `refto` an indexed class or
+   `listof` (typed_entity); dotted chains, calls, aliases and unknown type names stay Outside; documents with more than one class / module node, or one below the
    first level; workspaces whose stems collide ignoring case (HashMap: the last one indexed wins).
    Executable; no property proofs in this file. *)
 From GoldV Require Import Base Tokens Lexer AstKinds Tree Encase SymTab Scoping Annot DefTree.
@@ -227,6 +228,103 @@ Definition full_chain (ws : wst) (a : nat) (t : node) (steps : list (nat * node)
   | _, _ => Outside
   end.
 
+(* ---------- the eval type of a left operand that is a plain name (resolve_terminal) ----------
+   Stored when the terminal is annotated: get_symbol_info on the chain as it is at that moment, else
+   the class / module of that name.  The moment does not matter when every declaration of the name
+   in the document's own tables (method table, root table) ends before the operand; the ancestors'
+   tables are complete by then (no parent cycle).  The eval type of a variable / parameter / field is
+   the one of its declared type, computed when the symbol was inserted: a native type name -> no
+   class; a name the class index knows, `refto` such a name -> that class, as written; `listof` ->
+   aListOfInstances; anything else (an alias, an unknown name: a look-up in tables under
+   construction) stays Outside.  Constants and procedures have no class. *)
+
+Definition rng_eqb (a b : range) : bool :=
+  N.eqb (pline (rstart a)) (pline (rstart b)) && N.eqb (pcol (rstart a)) (pcol (rstart b)) &&
+  N.eqb (pline (rend a)) (pline (rend b)) && N.eqb (pcol (rend a)) (pcol (rend b)).
+
+Definition is_typed_decl (n : node) : bool :=
+  is_kind KAstGlobalVariableDeclaration n || is_kind KAstParameterDeclaration n || is_kind KAstLocalVariableDeclaration n.
+
+(* the declaration node a symbol was made from *)
+Definition decl_node (t : node) (s : asym) : option node :=
+  match filter (fun n => is_typed_decl n && rng_eqb (nrange n) (a_range s) && str_eqb (nident n) (a_name s)) (all_nodes t) with
+  | [n] => Some n
+  | _ => None
+  end.
+
+Definition indexed_as (ws : wst) (name : str) : outcome (option str) :=
+  match find_doc ws name with Some _ => Ans (Some name) | None => Outside end.
+
+(* resolve_type_basic / resolve_type_refto on the declared type (first child of the declaration) *)
+Definition declared_entity (ws : wst) (n : node) : outcome (option str) :=
+  match nchildren n with
+  | c :: _ =>
+      if is_kind KAstTypeBasic c then
+        (if is_native (nident c) then Ans None else indexed_as ws (nident c))
+      else if is_kind KAstTypeReference c then
+        match attr_tok K_op c with
+        | Some o =>
+            if tt_eqb (tty o) Tokens.TRefTo then indexed_as ws (nident c)
+            else if tt_eqb (tty o) Tokens.TListOf then Ans (Some s_list_of_instances)
+            else Outside
+        | None => Outside
+        end
+      else Outside
+  | [] => Outside
+  end.
+
+Fixpoint lookup_idx (k : nat) (ch : list table) (id : str) : option (nat * table * asym) :=
+  match ch with
+  | [] => None
+  | T :: r => match find_in T id with Some s => Some (k, T, s) | None => lookup_idx (S k) r id end
+  end.
+
+Definition header_entity (s : asym) : outcome (option str) :=
+  if ci_eqb (a_name s) s_self then Outside else Ans (Some (a_name s)).
+
+(* Some entity: Class / Module(entity); None: no class (native, unknown, constant, procedure) *)
+Definition typed_entity (ws : wst) (a : nat) (t : node) (steps : list (nat * node)) (lft : node) : outcome (option str) :=
+  if negb (is_kind KAstTerminal lft && in_method steps) then Outside else
+  match chain_for t steps, lineage_t ws a with
+  | Some ch, Ans (false, path) =>
+      let L := nident lft in
+      let full := ch ++ tl (tables_along ws a path) in
+      let before (s : asym) := pos_leb (rend (a_range s)) (rstart (nrange lft)) in
+      if negb (forallb (fun T => forallb (fun s => negb (ci_eqb (a_name s) L) || before s) (t_syms T)) ch) then Outside else
+      match lookup_idx 0 full L with
+      | Some (k, _, s) =>
+          match a_kind s with
+          | KConstant | KProc => Ans None
+          | KClass | KModule => header_entity s
+          | KVariable | KField =>
+              match (if Nat.ltb k (length ch) then Some a else nth_error path (S (k - length ch))) with
+              | Some j =>
+                  match nth_error ws j with
+                  | Some dj => match decl_node (snd dj) s with Some n => declared_entity ws n | None => Outside end
+                  | None => Outside
+                  end
+              | None => Outside
+              end
+          | _ => Outside
+          end
+      | None =>
+          match find_doc ws L with
+          | None => Ans None
+          | Some (j, _) =>
+              if Nat.eqb j a then Outside else
+              match other_chain ws a j with
+              | Outside => Outside
+              | Ans chj =>
+                  match lookup chj L with
+                  | Some (_, s) => match a_kind s with KClass | KModule => header_entity s | _ => Outside end
+                  | None => Ans None
+                  end
+              end
+          end
+      end
+  | _, _ => Outside
+  end.
+
 (* ---------- get_definition ---------- *)
 
 Definition wdef_rhs (ws : wst) (a : nat) (t : node) (steps : list (nat * node)) (full : list table)
@@ -242,7 +340,17 @@ Definition wdef_rhs (ws : wst) (a : nat) (t : node) (steps : list (nat * node)) 
             | Ans (Some ch) => Ans (wdef_all ws ch (get_id enc p))
             end
           else Outside
-      | None => Outside
+      | None =>
+          match typed_entity ws a t steps lft with
+          | Outside => Outside
+          | Ans None => Ans []
+          | Ans (Some ent) =>
+              match entity_chain ws a full ent with
+              | Outside => Outside
+              | Ans None => Ans []
+              | Ans (Some ch) => Ans (wdef_all ws ch (get_id enc p))
+              end
+          end
       end
   | None => Outside
   end.
@@ -288,7 +396,17 @@ Definition wcompl_rhs (ws : wst) (a : nat) (t : node) (steps : list (nat * node)
             | Ans (Some ch) => Ans (labels_rhs ch)
             end
           else Outside
-      | None => Outside
+      | None =>
+          match typed_entity ws a t steps l with
+          | Outside => Outside
+          | Ans None => Ans []
+          | Ans (Some ent) =>
+              match entity_chain ws a full ent with
+              | Outside => Outside
+              | Ans None => Ans []
+              | Ans (Some ch) => Ans (labels_rhs ch)
+              end
+          end
       end
   | None => Outside
   end.
